@@ -106,4 +106,18 @@ PROPS = {
         "scope": "string/template literal bodies (printUnquotedUTF16) modelled; statement/expression grammar validity, acceptance of valid input and the fixed-point property are decided by V8 (vm.Script / vm.SourceTextModule) in the search",
         "assumptions": ["V8 (Node 20) is the reference parser; one known V8 bug (destructuring assignment in call arguments) is cross-checked with esbuild's own parser"],
     },
+    "C09": {
+        "lean_modules": ["EsbuildModel.Props.C09"],
+        "theorems": [
+            "EsbuildModel.C09.js_cache_key_covers",
+            "EsbuildModel.C09.css_cache_key_covers",
+            "EsbuildModel.C09.cache_transparent",
+        ],
+        "open": ["Watch.complete: watch-mode change detection is not modelled yet (search covers Rebuild only); symlink retargeting is a candidate known finding"],
+        "gen_facts": ["CacheKey.lean"],
+        "kernels": [],
+        "searches": [("c09-history", 60, 3000)],
+        "scope": "AST cache hit rule (cache_ast.go) and the structural part of its key (js_parser/css_parser Options.Equal) over field lists regenerated from the source; file-system cache, resolver caches and watch mode are reached by the rebuild-vs-fresh search only",
+        "assumptions": ["parse is a function of (source text, options)", "field lists are extracted by go/ast from the current source (harness/cmd/extract/cachekey.go)"],
+    },
 }
